@@ -316,6 +316,7 @@ pub fn judge(p: &Prepared, run: &crate::c08::SaveRun, cx: &Ctx9) -> CaseOut {
     // ------------------------------------------------------------ property oracle
     let troot = target_rel.join("/");
     let mut fail_tree: Vec<String> = cx.extra.clone();
+    fail_tree.extend(p.notes.iter().filter(|n| n.starts_with("SOURCE-RELOAD-FAILED")).cloned());
     let mut fail_frame: Vec<String> = vec![];
     let mut fail_opt: Vec<String> = vec![];
     let saved = run.obs.1 == "Saved";
@@ -486,12 +487,7 @@ pub fn cross_case(seed: u64, idx: u64, out: &Path, verbose: bool) -> Vec<CaseOut
             pb.notes.push("font B: an image without the PNG signature".into());
         }
     }
-    let tb = split_rel("zone/b.ufo");
-    let run_b = run_save(&pb, out, idx * 4, &sb, &tb);
     let mut extra = vec![];
-    if run_b.obs.1 == "Saved" {
-        extra.push("font B was saved although it cannot be".into());
-    }
     // Glyph::save failing, then Glyph::save of another glyph: its file is its encoding
     {
         let bad = make_glyph(&GlyphR { name: "g-uid".into(), objlibs: false, uid: true, width: 2 });
@@ -511,9 +507,17 @@ pub fn cross_case(seed: u64, idx: u64, out: &Path, verbose: bool) -> Vec<CaseOut
         }
         let _ = std::fs::remove_file(&gp);
     }
+    let tb = split_rel("zone/b.ufo");
+    let run_b = run_save(&pb, out, idx * 4, &sb, &tb);
+    if run_b.obs.1 == "Saved" {
+        extra.push("font B was saved although it cannot be".into());
+    }
     outs.push(judge(&pb, &run_b, &Ctx9 { idx, kind: 3, variant: 100 + fail_kind, crafted_loaded: false, prior: Prior::Absent, in_place: false, sb: &sb, target_rel: &tb, verbose, extra }));
     // ---- font A, same thread: to a fresh path, then over something
-    let ra = Recipe::random_valid(&mut r);
+    let mut ra = Recipe::random_valid(&mut r);
+    if ra.layers[0].glyphs.is_empty() {
+        ra.layers[0].glyphs.push(GlyphR { name: "a".into(), objlibs: false, uid: false, width: 5 });
+    }
     let (font, shadow) = build_font(&ra);
     let pa = Prepared { font, shadow, groups_ok: true, info_valid: true, loaded_from: None, preserve: BTreeSet::new(), notes: vec![format!("font A, saved after the failed save of font B ({})", pb.notes.last().cloned().unwrap_or_default())] };
     let ta = split_rel("zone/a-fresh.ufo");
